@@ -9,18 +9,34 @@ TRANSLATORS = [t1_operators.translate]
 PROPERTY_FILE = 'Properties/C15.v'
 THEOREMS = ['C15_operator_monotone', 'C15_semantics_monotone', 'C15_defined_is_stable',
             'C15_total_is_defined', 'C15_full_evaluation_reports_semantics',
-            'C15_stack_evaluation_reports_semantics']
+            'C15_stack_evaluation_reports_semantics',
+            'C15_full_evaluation_total', 'C15_stack_evaluation_total',
+            'C15_full_evaluation_monotone', 'C15_full_evaluation_defined_stable',
+            'C15_stack_evaluation_monotone', 'C15_stack_evaluation_defined_stable',
+            'C15_outputs_evaluation_monotone', 'C15_outputs_evaluation_defined_stable',
+            'C15_full_evaluation_total_defined', 'C15_stack_evaluation_total_defined',
+            'C15_outputs_evaluation_total_defined', 'C15_evaluate_boolean']
 PARTIAL = {}
-LEVEL_TEXT = ('monotonicity and stability under completion are proved for every netlist and every pair of assignments over the regenerated three-valued tables; evaluators are tied to the semantics by proved soundness; code tie by regeneration + correspondence over all 4^n partial assignments of generated circuits')
-LEVEL_NOTE = ('Coq kernel + vm_compute; translator T1; correspondence harness; hypotheses: input list names INPUT gates, '
-              'assignment keys are inputs; completeness (every gate gets a value) and fuel adequacy: see PARTIAL in evidence')
+LEVEL_TEXT = ('proved in Coq: monotonicity and stability under completion for every netlist and every pair of '
+              'assignments over the regenerated three-valued tables; and directly for the evaluators on well-formed '
+              'circuits: evaluate_full_circuit / evaluate_circuit / evaluate_circuit_outputs are total for every '
+              'partial assignment, every value they report is refined (a True/False is reported identically) under '
+              'every assignment with more information, and under a total assignment no gate (whole circuit), no '
+              'requested output (stack evaluator) and no output is Undefined; code tie by regeneration + '
+              'correspondence over all 4^n partial assignments of generated circuits')
+LEVEL_NOTE = ('Coq kernel + vm_compute; translator T1; correspondence harness; hypotheses of the evaluator-level '
+              'theorems: WF c, assignment keys are inputs (both assignments), arity_ok c where totality / completeness '
+              'of the second run is used (full circuit and outputs dictionary; the stack evaluator theorem needs no '
+              'arity hypothesis because both runs are assumed to return); gates the stack evaluator did not evaluate are '
+              'reported Undefined by design, so its totality statement speaks about the requested outputs')
 TECHNIQUE = ('Coq proof: monotonicity of the regenerated 3-valued operator tables (case analysis + induction on the '
              'fold), lifted by induction over the relational netlist semantics; evaluators tied to the semantics by '
-             'soundness theorems; model tied to /repo by regenerating the tables (translator T1) and by '
+             'soundness + completeness theorems (C01) and a lemma that the set of labels the stack evaluator visits '
+             'does not depend on values; model tied to /repo by regenerating the tables (translator T1) and by '
              'vm_compute correspondence of all evaluation entry points on generated circuits x partial assignments')
-TRUSTED = ['hypotheses of the evaluator theorems: the input list names INPUT gates; the assignment assigns inputs only '
+TRUSTED = ['hypotheses of the evaluator theorems: WF c, arity_ok c, the assignment assigns inputs only '
            '(assignments that pre-assign internal gates are exercised by the correspondence only)']
-ASSUMPTIONS = ['termination of evaluate_circuit on the generated fuel is observed by correspondence, not proved']
+ASSUMPTIONS = []
 
 
 def correspondence(ctx, model_ok):
@@ -34,6 +50,11 @@ def correspondence(ctx, model_ok):
     cases = []
     for _ in range(n):
         dump = gen.random_circuit(ctx.rng, with_blocks=False)
+        if ctx.rng.random() < 0.12:
+            dump = gen.malformed_variant(ctx.rng, dump)   # separate malformed stream: error paths
+            r.count('stream', 'malformed')
+        else:
+            r.count('stream', 'well-formed')
         case = evalcorr.make_case(ctx.rng, dump, n_assign=ctx.n(64, 256), n_vec=ctx.n(4, 16))
         cases.append(case)
         r.add_case(case, any(t != 'INPUT' for _, t, _ in dump['gates']))
@@ -43,6 +64,14 @@ def correspondence(ctx, model_ok):
             r.count('gate_types', t)
         for x in case['acs']:
             r.count('full_result', x['full'][1] if x['full'][0] == 'err' else 'ok')
+    if not ctx.quick:
+        # thorough: EXHAUSTIVE enumeration of all netlists with <= 2 inputs and <= 2 gates over a reduced type set
+        for dump in gen.tiny_netlists():
+            case = evalcorr.make_case(ctx.rng, dump, n_assign=16, n_vec=4)
+            cases.append(case)
+            r.add_case(case, any(t != 'INPUT' for _, t, _ in dump['gates']))
+            r.count('stream', 'exhaustive-tiny')
+        r.notes.append('thorough tier enumerated all 908 netlists with <= 2 inputs and <= 2 gates over ' + str(gen.TINY_TYPES))
     r._cases = cases
     if model_ok:
         bad = coqrun.run_cases(ID, 'eval', evalcorr.HEADER, [evalcorr.case_term(c) for c in cases],
